@@ -13,6 +13,8 @@ pub trait ElemT: Clone + Send + Sync + 'static {
     const DROP: bool;
     /// the element has a value field (`set_val` is not a no-op)
     const HAS_VAL: bool = true;
+    /// a zero-sized element type WITH drop glue whose instances are counted (created / cloned - dropped)
+    const ZST_COUNTED: bool = false;
     fn mk(id: u64, stamp: u64, val: u64) -> Self;
     fn id(&self) -> u64;
     fn stamp(&self) -> u64;
@@ -194,6 +196,33 @@ impl ElemT for Tz {
     fn stamp(&self) -> u64 { 0 }
     fn val(&self) -> u64 { 0 }
     fn set_val(&mut self, _v: u64) {}
+}
+/// zero-sized element WITH drop glue and an observable Clone: a token.  Instances cannot carry a
+/// serial number, so they are COUNTED: after every step the number alive must equal len().
+pub struct Tzd;
+impl ElemT for Tzd {
+    const DROP: bool = true;
+    const HAS_VAL: bool = false;
+    const ZST_COUNTED: bool = true;
+    fn mk(_id: u64, _s: u64, _v: u64) -> Self { with_ctx(|c| c.zst_live += 1); Tzd }
+    fn id(&self) -> u64 { 0 }
+    fn stamp(&self) -> u64 { 0 }
+    fn val(&self) -> u64 { 0 }
+    fn set_val(&mut self, _v: u64) {}
+}
+impl Clone for Tzd {
+    fn clone(&self) -> Tzd { with_ctx(|c| c.zst_live += 1); Tzd }
+}
+impl Drop for Tzd {
+    fn drop(&mut self) {
+        with_ctx(|c| {
+            c.zst_live -= 1;
+            if c.zst_live < 0 {
+                c.double_drops.push(0);
+                c.zst_live = 0;
+            }
+        });
+    }
 }
 /// zero-sized, over-aligned element: every reference the library hands out must still be a
 /// multiple of 64 (Bucket::as_ptr returns a dangling ALIGNED pointer for zero-sized T)
@@ -895,7 +924,13 @@ pub fn run_table<T: ElemT>(lines: &[String], out: &mut String) {
         }
         chk.extend(aerr);
         chk.extend(with_ctx(|c| std::mem::take(&mut c.misaligned_refs)));
-        if T::DROP {
+        if T::ZST_COUNTED {
+            let alive = with_ctx(|c| c.zst_live);
+            if alive != m.len() as i64 && !leak_ok {
+                chk.push(format!("{} zero-sized elements with drop glue are alive but the table holds {} (each must be stored, or dropped exactly once: leak / never dropped or double drop)", alive, m.len()));
+                with_ctx(|c| c.zst_live = m.len() as i64);
+            }
+        } else if T::DROP {
             let post = serials(&m);
             let live: Vec<u64> = with_ctx(|c| c.live.keys().copied().collect());
             let in_table: std::collections::HashSet<u64> = post.iter().map(|e| e.0).collect();
@@ -918,7 +953,7 @@ pub fn run_table<T: ElemT>(lines: &[String], out: &mut String) {
         let _ = writeln!(out, "CHK {}", if chk.is_empty() { "ok".to_string() } else { chk.join(" | ") });
     }
     drop(m);
-    let (live, blocks, dd, aerr) = with_ctx(|c| (c.live.len(), c.blocks.len(), c.double_drops.len(), c.alloc_errors.len()));
+    let (live, blocks, dd, aerr) = with_ctx(|c| (c.live.len() + c.zst_live.max(0) as usize, c.blocks.len(), c.double_drops.len(), c.alloc_errors.len()));
     let drop_panics = with_ctx(|c| c.drop_panics);
     let _ = writeln!(out, "END live={} blocks={} double_drops={} alloc_errors={} drop_panics={}", live, blocks, dd, aerr, drop_panics);
 }
